@@ -204,6 +204,8 @@ def make_constraint(b: Built, c):
 def make_indicator(b: Built, ind):
     cls = ind["cls"]
     T = lambda i: b.tasks[i - 1]
+    if ind.get("by_objective"):
+        return None  # created by the objective that refers to it
     if cls in ("IndicatorResourceUtilization", "IndicatorNumberTasksAssigned", "IndicatorResourceIdle"):
         return getattr(ps, cls)(resource=resource(b, ind["res"]))
     if cls == "IndicatorResourceCost":
